@@ -169,3 +169,60 @@ UNITS.append(dict(
                  'm2exp <= 2^30 (chunk size is an int)'],
     harness=RG_H, timeout=3000, tier='thorough', replay='mpz_urandomb',
     selftest=[('randget_lc', r'if \(nbits % \(64 - 0\) != 0\)\s*rp\[nbits / \(64 - 0\)\]', 'if (0) rp[nbits / (64 - 0)]')]))
+
+# ------------------------------------------------------------------ mpz_urandomm: 0 <= result < |n| for every n, also when rop == n (rejection loop; generator assumed)
+UM_CONTRACT = '''_Bool g_div0_expected;
+void __gmp_divide_by_zero (void) { __CPROVER_assert (g_div0_expected, "[C19][C02] DIVIDE_BY_ZERO only for n == 0"); __CPROVER_assume (0); }
+void __gmpz_urandomm (mpz_ptr rop, gmp_randstate_t rstate, mpz_srcptr n)
+__CPROVER_requires (V_WF (rop) && V_WF (n) && __CPROVER_r_ok (rstate, sizeof (*rstate)) && V_GHOSTS_OK)
+__CPROVER_assigns (*rop, __CPROVER_object_whole (V_PTR (rop)), g_hd)
+__CPROVER_frees (V_PTR (rop))
+__CPROVER_ensures (V_WF_AT (rop, gk) && V_WF_AT (rop, gj) && V_SIZ (rop) >= 0);
+'''
+UM_H = '''#include "/verif/contracts/alloc_stubs.h"
+void h_mpz_urandomm (void) {
+  V_INSTALL_ALLOCATOR ();
+  V_RSTATE (R);
+%(X)s%(N)s  mpz_ptr rop = &X; mpz_srcptr n = &N;
+ALIASBLOCK
+  gk = nondet_long (); gj = nondet_long (); gh = nondet_long ();
+  __CPROVER_assume (V_GHOSTS_OK && V_WF (rop) && V_WF (n));
+  long sn = V_SIZ (n), un = V_ABS (sn); mp_limb_t Nk = gk < un ? V_PTR (n)[gk] : 0, Nj = gj < un ? V_PTR (n)[gj] : 0, N0 = un ? V_PTR (n)[0] : 0;
+  g_div0_expected = (un == 0); g_hd = -1;
+  __gmpz_urandomm (rop, &R, n);
+  __CPROVER_assert (un != 0, "[C19] returned normally, so n was not zero");
+  long rn = V_SIZ (rop);
+#define V_RL(t) ((t) < rn ? V_PTR (rop)[t] : (mp_limb_t) 0)
+  if (un == 1 && N0 == 1)
+    __CPROVER_assert (rn == 0, "[C19] n == 1: the only value in [0, n-1] is 0");
+  else
+    {
+      /* result < |n|: at the highest differing limb g_hd the result is smaller, all limbs above agree (limbs of the result above its size are zero) */
+      __CPROVER_assert (0 <= g_hd && g_hd < un && rn <= un, "[C19] the result differs from |n| at some limb g_hd and has at most as many limbs");
+      __CPROVER_assert (g_hd == gk ==> V_RL (gk) < Nk, "[C19] at the highest differing limb the result is smaller than |n|");
+      __CPROVER_assert ((g_hd < gj && gj < un) ==> V_RL (gj) == Nj, "[C19] all limbs above it agree with |n| (compared against the ORIGINAL n, also when rop == n)");
+    }
+  if (n != rop) __CPROVER_assert ((long) V_SIZ (n) == sn && (gk < un ==> V_PTR (n)[gk] == Nk), "[C05] n (not the result) unchanged");
+  free (X._mp_d); free (N._mp_d);
+}'''
+_um = dict(
+    name='mpz_urandomm', props=['C19', 'C04', 'C05', 'C15'], source='mpz/urandomm.c', contracts=['mpn.h', 'mpz.h'], contract_text=UM_CONTRACT, assumptions=ASM,
+    enforce=['__gmpz_urandomm'], extra_sources=['mpz/realloc.c'], cbmc_flags=['--memory-leak-check'],
+    functions={'__gmpz_urandomm': dict(
+        inserts=[(r'\(cmp\) = \(__gmp_x > __gmp_y \? 1 : -1\);', r'g_hd = __gmp_i; \g<0>')],
+        loops={0: dict(scalars=['pow2'], havoc_targets=['np'], havoc='{ long V_d = nondet_long (); __CPROVER_assume (0 <= V_d && V_d <= size - 1); np = n->_mp_d + V_d; }',
+                       inv='(np >= n->_mp_d && np <= nlast && __CPROVER_same_object (np, n->_mp_d) && nlast == n->_mp_d + (size - 1) && size >= 1 && pow2 == 1)', dec='(nlast - np)'),
+               1: copy_loop(['gk', 'gj']),
+               2: dict(scalars=['cmp', 'g_hd'], local_to_body=['__rstate', '__gmp_i', '__gmp_x', '__gmp_y', 'V_nd'], slices=[('rp', 'size * 8')],
+                       inv='(size >= 1 && size <= V_ZMAX && V_W_OK (rp, size) && V_R_OK (np, size) && !__CPROVER_same_object (rp, np) && nbits >= 1 && (unsigned long) nbits <= 64 * (unsigned long) size && ((unsigned long) nbits > 64 * (unsigned long) (size - 1) || rp[size - 1] == 0))'),
+               3: dict(scalars=['__gmp_i', '__gmp_x', '__gmp_y', 'cmp', 'g_hd'],
+                       inv='(0 <= __gmp_i && __gmp_i <= size && cmp == 0 && ((__gmp_i <= gj && gj < size) ==> rp[gj] == np[gj]) && ((__gmp_i <= gk && gk < size) ==> rp[gk] == np[gk]))', dec='__gmp_i'),
+               4: dict(snap='long V_nl0 = size;', scalars=['size'], dec='size',
+                       inv='(0 <= size && size <= V_nl0 && ((size <= gk && gk < V_nl0) ==> rp[gk] == 0) && ((size <= gj && gj < V_nl0) ==> rp[gj] == 0))')})},
+    harness='#define V_DFCC 1\n' + GEN + UM_H % dict(X=mpz_obj('X'), N=mpz_obj('N')), timeout=1500,
+    selftest=[('__gmpz_urandomm', r'while \(cmp >= 0\);', 'while (cmp > 0);'), ('__gmpz_urandomm', r'rp\[size - 1\] = 0;', ';')])
+for _t, _c in (('', ''), ('an', '  n = rop;')):
+    _v = dict(_um); _v['name'] = 'mpz_urandomm' + ('_' + _t if _t else '')
+    _v['harness'] = _um['harness'].replace('ALIASBLOCK', _c).replace('h_mpz_urandomm (void)', 'h_%s (void)' % _v['name'])
+    if _t: _v['selftest'] = [('__gmpz_urandomm', r'if\(np==rp\)', 'if(0)')]
+    UNITS.append(_v)
